@@ -14,6 +14,11 @@ func init() {
 			{Pkg: "wire", Entry: "VerifH13b", What: "cycle: CopyInResponse per column/format, payloads in order, exactly one E and one Z on abort, C Z on success, stray COPY messages ignored",
 				Quick: map[string]int{"K": 2, "N": 1}, Thorough: map[string]int{"K": 3, "N": 2},
 				Witnesses: []string{"copy-completed", "copy-aborted", "handler-stopped", "stray-copy-message"}},
+			{Pkg: "wire", Entry: "VerifH13b", What: "same cycle, the handler that gives up on the COPY returning the reader's error as it is or its own account of it (errors wrapping io.ErrUnexpectedEOF, io.EOF, net.ErrClosed): a failed COPY is one ErrorResponse and one ReadyForQuery whatever the error's identity",
+				Quick: map[string]int{"K": 2, "N": 1, "FAILKINDS": 1}, Thorough: map[string]int{"K": 2, "N": 1, "FAILKINDS": 1},
+				Witnesses: []string{"copy-aborted", "handler-stopped", "handler-reports-a-short-row"}},
+			{Pkg: "wire", Entry: "VerifH13e", What: "same through Parse/Bind/Execute",
+				Quick: map[string]int{"K": 1, "FAILKINDS": 1}, Witnesses: []string{"extended-copy-aborted", "handler-reports-a-short-row"}},
 			{Pkg: "wire", Entry: "VerifH10i", What: "an oversized message (body made of well-formed messages, one of them a Query) arriving while a handler reads COPY data: skipped in full, nothing of it taken for a message, the COPY aborted with exactly one ErrorResponse and one ReadyForQuery, the query after it served",
 				Quick: map[string]int{}, Witnesses: []string{"oversized-copydata", "query-inside-the-oversized-body"}},
 			{Pkg: "wire", Entry: "VerifH13d", What: "binary COPY read through the library's row reader: whether the COPY ended well is decided by CopyDone / CopyFail / a non-COPY message, also when the data already carried its end-of-data trailer",
@@ -32,6 +37,8 @@ func init() {
 			{Pkg: "wire", Entry: "VerifH14", What: "rows = reference rows for every split; bad field count / truncated field -> error, never a panic or a fabricated row; trailer -> EOF",
 				Quick: map[string]int{"R": 8, "SPLITS": 2, "COLS": 2}, Thorough: map[string]int{"R": 11, "SPLITS": 2, "COLS": 2},
 				Witnesses: []string{"row-decoded", "null-field", "bad-row", "trailer", "split-at-boundary", "split-inside-tuple", "empty-chunk"}},
+			{Pkg: "wire", Entry: "VerifH14q", What: "the stream starts with the first CopyData message: surplus bytes after the last field of the Query or Execute message that starts the COPY are not part of it — the row reader returns exactly the tuple the client encoded",
+				Quick: map[string]int{"S": 3}, Witnesses: []string{"surplus-after-the-last-field-of-the-starting-message", "copy-started-by-execute"}},
 			{Pkg: "wire", Entry: "VerifH14", What: "splits anywhere in the stream, also inside the 19-byte header",
 				Quick: map[string]int{"R": 6, "SPLITS": 2, "COLS": 1, "HEADERSPLIT": 1}, Thorough: map[string]int{"R": 8, "SPLITS": 2, "COLS": 1, "HEADERSPLIT": 1},
 				Witnesses: []string{"split-inside-tuple", "empty-chunk", "trailer"}},
